@@ -107,7 +107,7 @@ pub fn build_spec(property: &str, tier: &str, seed: u64) -> Option<Spec> {
             let phases: Vec<Box<dyn Phase>> = vec![Box::new(c14::C14Search { runs: runs(600_000, 20_000_000, tier), max_len: if thorough { 200 } else { 40 } })];
             Some(Spec {
                 property: "C14", level: "exploration", phases,
-                rule: "twin-history-search: the C06 workload (seeded histories with cancellation points and simulator-chosen hash behaviour); at 1-3 checkpoints per history the object's own observed entry list is rebuilt by ten other routes (from_vec, pushes, reversed push_front, chunked extend, superset with junk entries removed again under random cancellation, clone, into_iter/collect, null-then-iter_mut, inserts, Clone::clone_from onto an object with another history) each under a fresh hash seed and mode, and object, Value::Object and Value::Array wrappers must be ==, compare Equal both ways (cmp and partial_cmp) and hash identically under SipHash and FNV-1a; nine kinds of near copies (one value, one nested leaf, one key changed / replaced / shifted to another plane, entry duplicated, removed, adjacent swapped; position biased to the ends) must be unequal, not Equal, antisymmetric; a pool of up to 16 snapshots, near copies and plain values is checked pairwise (== iff structurally identical by an independent walk, Equal iff ==, antisymmetry, partial_cmp agrees, equal => same hash) and triple-wise (transitivity). A case is one history with its twin seed; distinct = distinct digest; non-trivial = at least one compared twin had an index dump (bucket count or bucket contents) different from the original's, i.e. the internal state really differed when equality was asked.".into(),
+                rule: "twin-history-search: the C06 workload (seeded histories with cancellation points and simulator-chosen hash behaviour); at 1-3 checkpoints per history the object's own observed entry list is rebuilt by ten other routes (from_vec, pushes, reversed push_front, chunked extend, superset with junk entries removed again under random cancellation, clone, into_iter/collect, null-then-iter_mut, inserts, Clone::clone_from onto an object with another history) each under a fresh hash seed and mode, and object, Value::Object and Value::Array wrappers must be ==, compare Equal both ways (cmp and partial_cmp) and hash identically under SipHash and FNV-1a; nine kinds of near copies (one value, one nested leaf, one key changed / replaced / shifted to another plane, entry duplicated, removed, adjacent swapped; position biased to the ends) must be unequal, not Equal, antisymmetric; a pool of up to 16 snapshots, near copies and plain values is checked pairwise (== iff structurally identical by an independent walk, Equal iff ==, antisymmetry, partial_cmp agrees, equal => same hash) and triple-wise (transitivity); the same laws over a second pool of twelve values per run that carry keys / strings / number spellings / short arrays of lengths 0..40 bytes around the 16-byte inline capacity, with shared prefixes and one-bit siblings (key and leaf order on their own). A case is one history with its twin seed; distinct = distinct digest; non-trivial = at least one compared twin had an index dump (bucket count or bucket contents) different from the original's, i.e. the internal state really differed when equality was asked.".into(),
                 assumptions: vec![
                     "ground truth is the object's own observed entry list, never the C06 model; twins whose construction does not reproduce that list are skipped (a C06 matter)".into(),
                     "no particular order is required, only the laws; unequal values may hash alike".into(),
